@@ -40,7 +40,7 @@ fn store_all(app: &mut App, creator: &Addr, explicit: u64, dup_of: usize) -> Opt
     // rejected requests change nothing
     check_native("zero_id_rejected", app.store_code_with_id(creator.clone(), 0, sc::contract()).is_err(), || "ok".into());
     check_native("duplicate_id_rejected", app.store_code_with_id(creator.clone(), explicit, sc::contract()).is_err(), || "ok".into());
-    check_native("duplicate_of_missing_id_rejected", app.duplicate_code(explicit + 5).is_err() && app.duplicate_code(0).is_err(), || "ok".into());
+    check_native("duplicate_of_missing_id_rejected", app.duplicate_code(1000).is_err() && app.duplicate_code(0).is_err(), || "ok".into());
     let e = app.store_code_with_creator(creator.clone(), sc::contract());
     check_native("rejected_requests_consume_no_id", e == d + 1, || format!("{} after {}", e, d));
     Some(vec![a, b, c, d, e])
@@ -122,8 +122,8 @@ fn history() {
         }
     }
     let before = snapshot(&app);
-    check_native("migrate_to_unknown_id_rejected", app.migrate_contract(user.clone(), first.clone(), &Script::new(), explicit + 9).is_err(), || "ok".into());
-    check_native("instantiate_unknown_id_rejected", app.instantiate_contract(explicit + 9, user.clone(), &Script::new(), &[], "x", None).is_err(), || "ok".into());
+    check_native("migrate_to_unknown_id_rejected", app.migrate_contract(user.clone(), first.clone(), &Script::new(), 1000).is_err(), || "ok".into());
+    check_native("instantiate_unknown_id_rejected", app.instantiate_contract(1000, user.clone(), &Script::new(), &[], "x", None).is_err(), || "ok".into());
     check_native("empty_label_rejected", app.instantiate_contract(ids[0], user.clone(), &Script::new(), &[], "", None).is_err(), || "ok".into());
     check_unchanged("rejected_requests_leave_state_unchanged", &app, &before);
     // failed and rolled-back instantiations leave nothing behind; funds are symbolic
